@@ -209,15 +209,16 @@ class ClockDividerModel:
 
 class SyncMemModel:
     """Read returns the content before a same-cycle write; read is registered."""
-    def __init__(self, aw, dw):
+    def __init__(self, aw, dw, rw=None):
         self.aw, self.dw = aw, dw
+        self.rmask = (1 << (dw if rw is None else rw)) - 1      # a read port narrower than the cells shows the low bits
         self.init = ((0,) * (1 << aw), 0)
 
     def enabled(self, s, x):
         return True
 
     def out(self, s, x):
-        return (s[1],)
+        return (s[1] & self.rmask,)
 
     def nxt(self, s, x):
         mem, rd = s
